@@ -14,6 +14,7 @@ half-Hessian (`C02_readback`); converting down drops only the Hessian.
 -/
 import RateslibModel.Analysis.Refine2
 import RateslibModel.Props.C17
+import RateslibModel.Proofs.Mixed2
 namespace Rateslib
 open Real Expr Filter Topology
 
@@ -139,6 +140,19 @@ theorem C02_hessian_entries (d : Dual2 ℝ) (v w : String) :
 example : Dom2 (.div (.log (.mul (.leaf 0) (.leaf 1))) (.leaf 2)) (fun i => (i : ℝ) + 2) := by
   simp only [Dom2, evalR, true_and]
   norm_num
+
+/-- MIXED OPERANDS AT SECOND ORDER: a float on either side of + − × ÷ gives the same number — value, every first
+and every second derivative, i.e. the same 2-jet along every direction `α·e_v + β·e_w` — as promoting the float
+to a variable-free constant (`x + f`, `x − f`, `f − x`, `x · f`, `x / f`, `f / x`; `f + x` and `f · x` are the
+commutative expansions of the first and fourth). -/
+theorem C02_mixed_eq_promoted (f : ℝ) (d : Dual2 ℝ) (hd : d.WF) (α β : ℝ) (v w : String) :
+    dirJet α β v w (Dual2.addF d f) = dirJet α β v w (Dual2.add false d (Dual2.new f [])) ∧
+    dirJet α β v w (Dual2.subF d f) = dirJet α β v w (Dual2.sub false d (Dual2.new f [])) ∧
+    dirJet α β v w (Dual2.fSub f d) = dirJet α β v w (Dual2.sub false (Dual2.new f []) d) ∧
+    dirJet α β v w (Dual2.mulF d f) = dirJet α β v w (Dual2.mul false d (Dual2.new f [])) ∧
+    dirJet α β v w (Dual2.divF d f) = dirJet α β v w (Dual2.div false d (Dual2.new f [])) ∧
+    dirJet α β v w (Dual2.fDiv f d) = dirJet α β v w (Dual2.div false (Dual2.new f []) d) :=
+  mixed2_eq_promoted f d hd α β v w
 
 /-- a power with base exactly 0 is inside the domain of the theorems wherever `x^p` is twice differentiable
 there — `p ≥ 2` and the polynomials `x¹`, `x⁰` (the repaired code, known_findings.json, returns 0 · ∞ no more) -/
